@@ -4,6 +4,7 @@ import (
 	"fmt"
 	"reflect"
 	"regexp"
+	"sync/atomic"
 	"time"
 
 	"github.com/influxdata/influxql"
@@ -169,6 +170,8 @@ func (mutRewriter) Rewrite(n influxql.Node) influxql.Node {
 	return n
 }
 
+var c14appendSeq int64
+
 type c14mut struct {
 	name string
 	run  func(s *influxql.SelectStatement)
@@ -197,8 +200,29 @@ var c14muts = []c14mut{
 		}
 	}},
 	{"poke", func(s *influxql.SelectStatement) { n := 0; poke(reflect.ValueOf(s), 0, &n) }},
+	// a caller empties the statement's lists in place (they keep their capacity) ...
+	{"truncate-lists", func(s *influxql.SelectStatement) {
+		s.Fields, s.Dimensions, s.SortFields, s.Sources = s.Fields[:0], s.Dimensions[:0], s.SortFields[:0], s.Sources[:0]
+	}},
+	// ... or appends to them; every appended element has a name of its own
+	{"append-to-lists", func(s *influxql.SelectStatement) {
+		n := fmt.Sprint(atomic.AddInt64(&c14appendSeq, 1))
+		s.Fields = append(s.Fields, &influxql.Field{Expr: &influxql.VarRef{Val: "appended_f" + n}})
+		s.Dimensions = append(s.Dimensions, &influxql.Dimension{Expr: &influxql.VarRef{Val: "appended_d" + n}})
+		s.SortFields = append(s.SortFields, &influxql.SortField{Name: "appended_s" + n})
+		s.Sources = append(s.Sources, &influxql.Measurement{Name: "appended_m" + n})
+	}},
 	// not a rewrite, but a query that keeps a memo on the statement
 	{"GroupByInterval+Offset", func(s *influxql.SelectStatement) { _, _ = s.GroupByInterval(); _, _ = s.GroupByOffset() }},
+}
+
+func c14mutNamed(name string) c14mut {
+	for _, m := range c14muts {
+		if m.name == name {
+			return m
+		}
+	}
+	panic("harness: no mutation " + name)
 }
 
 // c14Obs is what an observer sees of a statement: its structure and the
@@ -229,6 +253,16 @@ func c14One(c *Ctx, text string, idx int, local map[string]int64) {
 	}
 	r.Eval(1)
 	local["statements"]++
+	if idx%3 == 1 {
+		// as a program builds it by hand: INTO targets without the flag the
+		// parser sets on them (at any depth)
+		influxql.WalkFunc(st, func(n influxql.Node) {
+			if s, ok := n.(*influxql.SelectStatement); ok && s.Target != nil && s.Target.Measurement != nil && s.Target.Measurement.IsTarget {
+				s.Target.Measurement.IsTarget = false
+				local["hand-built-targets-without-flag"]++
+			}
+		})
+	}
 	// (1) + (2): faithful and unshared
 	var clone *influxql.SelectStatement
 	if p, pv, stk := mon.Try(func() { clone = sel.Clone() }); p {
@@ -371,6 +405,46 @@ func c14One(c *Ctx, text string, idx int, local map[string]int64) {
 		}
 	}
 	local["histories-ok"]++
+	// lists emptied in place keep their capacity: a copy taken then (Clone, or
+	// the statements Reduce and RewriteFields return) must not grow into the
+	// same memory as its origin
+	for _, how := range []string{"Clone", "Reduce", "RewriteFields", "RewriteTimeFields+Clone"} {
+		st2, _, _, _, _ := parseQuery1(text)
+		_, _, _, a := stmtParts(st2)
+		if how == "RewriteTimeFields+Clone" {
+			a.Fields = a.Fields[:1]
+			a.Fields[0] = &influxql.Field{Expr: &influxql.VarRef{Val: "time"}, Alias: "ts"}
+			a.RewriteTimeFields()
+		} else {
+			c14mutNamed("truncate-lists").run(a)
+		}
+		var b *influxql.SelectStatement
+		mon.Try(func() {
+			switch how {
+			case "Reduce":
+				b = a.Reduce(nil)
+			case "RewriteFields":
+				b, _ = a.RewriteFields(randomMapper(mon.NewRng(c.Seed, "c14.mapper", idx), nil))
+			default:
+				b = a.Clone()
+			}
+		})
+		if b == nil {
+			continue
+		}
+		first, second := a, b
+		if rg.Bool() {
+			first, second = b, a
+		}
+		c14mutNamed("append-to-lists").run(first)
+		snap := dumpOf(first)
+		c14mutNamed("append-to-lists").run(second)
+		if now := dumpOf(first); now != snap {
+			r.Violation("mutation-visible-on-other-side", det(fmt.Sprintf("lists emptied in place, then %s, then an element appended to each list on both sides: the second append changed the other statement: %s", how, astx.FirstDiff(snap, now))))
+			return
+		}
+		local["emptied-lists."+how]++
+	}
 	// (5) the statements returned by Reduce and RewriteFields are new
 	// statements: in-place rewrites applied to them afterwards touch only them,
 	// and rewrites of the receiver do not reach them
